@@ -7,6 +7,7 @@ Core Lean only.
 import VaxisModel.Model.Key
 import VaxisModel.Model.Mouse
 import VaxisModel.Model.TermMouse
+import VaxisModel.Model.TermInputModes
 import VaxisModel.Spec.KeyEnc
 
 namespace VaxisModel.Spec.TermInput
@@ -107,6 +108,47 @@ def realMouse (m : Mouse) : Bool :=
 
 /-- Same button, position and press/release/motion type. -/
 def sameMouse (a b : Mouse) : Bool := a.button = b.button ∧ a.col = b.col ∧ a.row = b.row ∧ a.event = b.event
+
+/-! ## Modes as the child selects them (xterm ctlseqs: DECSET / DECRST, DECKPAM / DECKPNM, RIS) -/
+
+open VaxisModel.Model.TermInputModes (ChildOp) in
+/-- Standard meaning of one private mode number being set (`v = true`) or reset. Entering the
+    alternate screen (1049) turns alternate scroll on and leaving it turns it off — the emulator's
+    documented default for mode 1007 ("enable altScroll in the alt screen"), which the property does
+    not constrain; every other number touches only its own mode. -/
+def specParam (v : Bool) (md : Modes) (n : Int) : Modes :=
+  if n = 1 then { md with decckm := v }
+  else if n = 1000 then { md with mouseButtons := v }
+  else if n = 1002 then { md with mouseDrag := v }
+  else if n = 1003 then { md with mouseMotion := v }
+  else if n = 1006 then { md with mouseSGR := v }
+  else if n = 1007 then { md with altScroll := v }
+  else if n = 1049 then { md with smcup := v, altScroll := v }
+  else if n = 2004 then { md with paste := v }
+  else md
+
+open VaxisModel.Model.TermInputModes (ChildOp) in
+/-- `ESC =` / `ESC >` select application / numeric keypad; `ESC c` (RIS) is a full reset to the
+    power-on state: no application cursor keys or keypad, no bracketed paste, no mouse reporting, SGR
+    encoding off, primary screen. -/
+def specApply (md : Modes) : ChildOp → Modes
+  | .set ns => ns.foldl (specParam true) md
+  | .reset ns => ns.foldl (specParam false) md
+  | .pam => { md with deckpam := true }
+  | .pnm => { md with deckpam := false }
+  | .ris => {}
+
+open VaxisModel.Model.TermInputModes (ChildOp) in
+def specModes (ops : List ChildOp) : Modes := ops.foldl specApply {}
+
+/-- The nine mode bits as a number (bit order of the drivers). -/
+def modesOfNat (n : Nat) : Modes :=
+  let b (i : Nat) : Bool := n / 2 ^ i % 2 == 1
+  { deckpam := b 0, decckm := b 1, paste := b 2, mouseButtons := b 3, mouseDrag := b 4,
+    mouseMotion := b 5, mouseSGR := b 6, altScroll := b 7, smcup := b 8 }
+
+/-- The private mode numbers that matter, plus some that must not. -/
+def modeNumbers : List Int := [1, 1000, 1002, 1003, 1006, 1007, 1049, 2004, 2, 7, 25, 12, 1004, 0]
 
 /-! ## Paste -/
 def pasteStartSeq : Seq := .csi [[200]] 126
